@@ -15,8 +15,8 @@ META = {
     "outside": ["10-bit branch", "SSIM fields"],
     "stubs": [], "explanation": ""}
 def queries(tier):
-    return [Query(name="sse_8bit_6x4_origin%d_%d" % (ox, oy), harness="C26/psnr.c", gen=gen, defines=["ORIGX=%d" % ox, "ORIGY=%d" % oy], unwind=260, funcs=[ED + ":psnr_calculations"], timeout=1500, mem_gb=24,
-                  bound="visible 6x4 in a padded 8x8 picture, picture origin (%d,%d), all sample values, reference/non-reference, temporal filtering on/off" % (ox, oy), what="SSE values exact over visible samples")
-            for ox, oy in ((2, 2), (0, 4))] + [
+    return [Query(name="sse_8bit_6x4_origin%d_%d_tf%d_ref%d" % (ox, oy, tf, ref), harness="C26/psnr.c", gen=gen, defines=["ORIGX=%d" % ox, "ORIGY=%d" % oy, "TF=%d" % tf, "ISREF=%d" % ref], unwind=260, funcs=[ED + ":psnr_calculations"], timeout=1500, mem_gb=24,
+                  bound="visible 6x4 in a padded 8x8 picture, picture origin (%d,%d), temporal filtering %s, %s picture, all sample values of source, saved source and reconstruction" % (ox, oy, "on" if tf else "off", "reference" if ref else "non-reference"), what="SSE values exact over visible samples")
+            for ox, oy, tf, ref in ((2, 2, 0, 0), (2, 2, 1, 1), (0, 4, 1, 0), (0, 4, 0, 1))] + [
             Query(name="stats_copied_iff_enabled", harness="C26/copy.c", gen=gen, unwind=4, funcs=[PK + ":packetization_kernel (statistics copy, sliced)"], timeout=600,
                   bound="all values of the three SSE fields, stat_report on/off", what="packet carries the picture's SSE values exactly when reporting is enabled, zeros otherwise")]
